@@ -351,8 +351,10 @@ def c11_1(ctx: Ctx):
                             # the filter is part of the identity of the finding: a wider filter matches more elements
                             tv = src(gen.target)
                             filt = " and ".join(sorted(re.sub(rf"\b{re.escape(tv)}\b", "_", src(f)) for f in gen.ifs)) if isinstance(gen.target, ast.Name) else " and ".join(sorted(src(f) for f in gen.ifs))
+                            # keyed by module + construct (not by function): the idiom keeps its identity when a refactoring moves it
                             ctx.fail(fi, n, f"first match over `{src(gen.iter)[:50]}` where `{filt[:70]}`",
-                                     "next(...) over an unordered collection: when several elements match, which one is returned changes from run to run", key=k + f"::if::{filt[:90]}")
+                                     "next(...) over an unordered collection: when several elements match, which one is returned changes from run to run",
+                                     key=f"{fi.mod.name}::first-match::{src(gen.iter)[:60]}::if::{filt[:90]}")
                     elif consumer in ("min", "max", "sorted"):
                         pass  # handled at the call
                     else:
